@@ -497,7 +497,12 @@ func (p *pathClient) lock(ctx context.Context, key string, timeoutMs, deadlineMs
 	if p.isRaw(key) || p.effectivePath(key) == pPipeline {
 		args := []interface{}{"DM.LOCK", p.dmap, key, strconv.FormatFloat(deadline.Seconds(), 'f', -1, 64)}
 		if timeoutMs > 0 {
-			args = append(args, "PX", strconv.FormatInt(timeoutMs, 10))
+			if p.pick%2 == 1 {
+				// the other spelling of the same timeout: seconds, with a fraction
+				args = append(args, "EX", strconv.FormatFloat(timeout.Seconds(), 'f', -1, 64))
+			} else {
+				args = append(args, "PX", strconv.FormatInt(timeoutMs, 10))
+			}
 		}
 		rc := p.cl.ownerOf(p.dmap, key).rc
 		if p.isRaw(key) {
@@ -593,7 +598,11 @@ func (p *pathClient) lease(ctx context.Context, key string, token []byte, ms int
 		lc := &ClusterLockContext{key: key, token: hex.EncodeToString(token), dm: dmi.(*ClusterDMap)}
 		r.Err = errClass(lc.Lease(ctx, d))
 	default:
-		r.Err = errClass(p.raw(key).Do(ctx, "DM.PLOCKLEASE", p.dmap, key, hex.EncodeToString(token), strconv.FormatInt(ms, 10)).Err())
+		if p.pick%2 == 1 {
+			r.Err = errClass(p.raw(key).Do(ctx, "DM.LOCKLEASE", p.dmap, key, hex.EncodeToString(token), strconv.FormatFloat(d.Seconds(), 'f', -1, 64)).Err())
+		} else {
+			r.Err = errClass(p.raw(key).Do(ctx, "DM.PLOCKLEASE", p.dmap, key, hex.EncodeToString(token), strconv.FormatInt(ms, 10)).Err())
+		}
 	}
 	return
 }
